@@ -1256,6 +1256,21 @@ class Interp(object):
     def ex_BinOp(self, n, st):
         a = self.ev(n.left, st)
         b = self.ev(n.right, st)
+        if isinstance(a, AObj) or isinstance(b, AObj):
+            # an instance of a repo class without operator methods
+            names = {ast.Add: ("__add__", "__radd__"), ast.Sub: ("__sub__", "__rsub__"),
+                     ast.Mult: ("__mul__", "__rmul__"), ast.Mod: ("__mod__", "__rmod__")}.get(type(n.op))
+            if names:
+                defined = False
+                for o, nm in ((a, names[0]), (b, names[1])):
+                    if isinstance(o, AObj):
+                        if o.cnode is None or o.ident in st.havoc or \
+                                self.repo.find_method(o.mod, o.cnode, nm) is not None:
+                            defined = True
+                if not defined and (is_concrete(a) or is_concrete(b) or
+                                    (isinstance(a, AObj) and isinstance(b, AObj))):
+                    self._diverged = self.do_raise("TypeError", st, n)
+                    return UNK
         v = self.binop(n.op, a, b)
         if isinstance(v, models.Raises):
             self._diverged = self.do_raise(v.exc, st, n)
@@ -1292,6 +1307,20 @@ class Interp(object):
 
     def ex_Subscript(self, n, st):
         base = self.ev(n.value, st)
+        if isinstance(base, AObj) and base.cnode is not None:
+            gi = self.repo.find_method(base.mod, base.cnode, "__getitem__")
+            if gi is not None:
+                if isinstance(n.slice, ast.Slice):
+                    parts = [self.ev(x, st) if x is not None else None
+                             for x in (n.slice.lower, n.slice.upper, n.slice.step)]
+                    if all(p is None or (isinstance(p, int) and not isinstance(p, bool)) for p in parts):
+                        key = slice(*parts)
+                    else:
+                        return UNK
+                else:
+                    key = self.ev(n.slice, st)
+                return self.call_func(AFunc(gi[0], gi[1], self_obj=base, cls=base.cnode),
+                                      [key], {}, st, n)
         if isinstance(n.slice, ast.Slice):
             lo = self.ev(n.slice.lower, st) if n.slice.lower is not None else None
             hi = self.ev(n.slice.upper, st) if n.slice.upper is not None else None
